@@ -21,8 +21,9 @@ RULE = {
            "(Render/Parse+Exec/Clone/NewTemplate/BuffaloRenderer/RenderR/CacheSet over a family of programs, cache "
            "on/off/cold/warm, map-order policy per op); distinct_nontrivial = distinct histories (hash of the op "
            "sequence and program texts) with at least 3 executions over at least 2 programs.",
-    "C14": "evaluations = simulated concurrent runs (2-8 tasks, quick; up to 32, thorough) under a seeded scheduler "
-           "with the Go race detector as oracle; distinct_nontrivial = distinct interleaving signatures (hash of the "
+    "C14": "evaluations = simulated concurrent runs (2-8 caller tasks on one context, 2-10 executing templates, "
+           "quick; up to 32, thorough; goroutines started by plush itself become further tasks) under a seeded "
+           "scheduler with the Go race detector as oracle, GOMAXPROCS 16/1/2/4 rotating over the worker processes; distinct_nontrivial = distinct interleaving signatures (hash of the "
            "sequence of (task, yield site) pairs) among runs with at least one context switch.",
     "C10": "evaluations = generated histories of NewContext*/New/Set/Value/Has executed against plush and the "
            "reference model with a full cross-check after every operation; distinct_nontrivial = distinct histories "
@@ -36,8 +37,9 @@ ASSUMPTIONS = {
         "a clean batch is evidence, not proof: seeded sampling of programs, exhaustive only over the fault points of each sampled program (quick: up to 24 per program)",
     ],
     "C15": [
-        "scope: run-time errors caused by an injected fault or by a generated failing statement; syntax errors are not decided by this technique (DESIGN §5.2)",
-        "every generated tag is written on one line; tags split across lines are not generated",
+        "scope: run-time errors caused by an injected fault or by a generated failing statement, and the syntax errors listed below (DESIGN §5.2, §16)",
+        "the statement of every generated tag begins on the line on which its tag begins; single-statement tags are also split across lines after commas, opening brackets and binary operators (the tag still begins on the same line); a statement that begins on a later line than its tag (multi-statement tags) is not generated: the property text does not say whether the tag's or the statement's line is meant",
+        "syntax errors: curated single-line broken tags, at top level after arbitrary material, or ending the input (also inside a block that is still open)",
         "probes in else-if conditions are excluded (the property text does not say which line is meant)",
     ],
     "C13": [
@@ -50,7 +52,7 @@ ASSUMPTIONS = {
         "data the caller itself shares between contexts, concurrent Helpers.Add and toggling CacheEnabled while rendering are outside the property",
     ],
     "C10": [
-        "one simulated client; no fault kind applies; keys {a,b,len,partial,w}, values {nil,1,2,3,\"s\",func}",
+        "one simulated client; no fault kind applies; 10 keys incl. helper names, a wrapped-context key, dotted and prefixed keys, plus bulk keys k0..k69; values nil, ints, strings, bool, typed nil, empty slice, func; chains up to 130 New() levels deep",
         "observations of a helper name are not compared on contexts built after a user bound that name to nil (DESIGN §5.5)",
     ],
 }
@@ -60,6 +62,8 @@ REAL_VS_STUB = {
              "built-in helpers used by workloads (partial, contentFor/Of, htmlEscape, truncate, raw, toJSON, len, range/until/between)",
              "sync.Mutex objects", "Go race runtime (C14)"],
     "simulated": ["goroutine scheduling (baton scheduler, simrt)", "mutex blocking (TryLock loop under the scheduler)",
+                  "blocking of sync.Cond / Once / WaitGroup, channel send / receive / close / range / select (simrt; real primitives still give the race detector the real happens-before edges)",
+                  "goroutines started by the code under test (become scheduler tasks; none on the pinned tree)",
                   "map iteration order (simrt.Entries / OrderValues)", "user helpers (recording probes with fault plan)",
                   "partial feeder (in-memory file system with faults)", "io.Reader (chunking reader)"],
 }
